@@ -121,6 +121,9 @@ def gen_call(rng, maxlen=40, long_ok=0):
         call["args"] = True
     if rng.random() < 0.1:
         call["child"] = True
+    if rng.random() < 0.06:  # a Python str with a lone surrogate (never a high directly followed by a low one)
+        lone = chr(rng.choice([0xD800, 0xDBFF, 0xDC00, 0xDFFF, rng.randrange(0xD800, 0xE000)]))
+        call["text"] = rng.choice([lone + "a" + call["text"], call["text"] + "a" + lone, lone, lone + "x" + lone])
     return call
 
 
